@@ -54,14 +54,18 @@ fn bounded_op(cap: usize, start: usize, len: usize, op: &str, arg: i64) -> (Stri
         "push" => {
             let g = rb.push(arg);
             let w = if m.len() == cap { let o = m.pop_front(); m.push_back(arg); o } else { m.push_back(arg); None };
-            got = fmt((g, rb.iter().cloned().collect::<Vec<_>>(), rb.len()));
-            want = fmt((w, m.iter().cloned().collect::<Vec<_>>(), m.len()));
+            let (s2, l2, _) = unsafe { rb.clone().into_raw_parts() };
+            let wf = s2 < cap && l2 <= cap;
+            got = fmt((g, if wf { rb.iter().cloned().collect::<Vec<_>>() } else { vec![] }, rb.len(), wf));
+            want = fmt((w, m.iter().cloned().collect::<Vec<_>>(), m.len(), true));
         }
         "pop" => {
             let g = rb.pop();
             let w = m.pop_front();
-            got = fmt((g, rb.iter().cloned().collect::<Vec<_>>(), rb.len()));
-            want = fmt((w, m.iter().cloned().collect::<Vec<_>>(), m.len()));
+            let (s2, l2, _) = unsafe { rb.clone().into_raw_parts() };
+            let wf = s2 < cap && l2 <= cap;
+            got = fmt((g, if wf { rb.iter().cloned().collect::<Vec<_>>() } else { vec![] }, rb.len(), wf));
+            want = fmt((w, m.iter().cloned().collect::<Vec<_>>(), m.len(), true));
         }
         "slices" => {
             let (a, b) = rb.slices();
@@ -91,6 +95,13 @@ fn bounded_op(cap: usize, start: usize, len: usize, op: &str, arg: i64) -> (Stri
             let w: Vec<i64> = m.drain(..k).collect();
             got = fmt((g, rb.iter().cloned().collect::<Vec<_>>()));
             want = fmt((w, m.iter().cloned().collect::<Vec<_>>()));
+        }
+        "from_raw_parts" => {
+            // arg encodes an invalid (start, len): must panic
+            let (bs, bl) = if arg == 0 { (cap, 0) } else { (0, cap + arg as usize) };
+            let r = panic::catch_unwind(|| { let _ = Bounded::from_raw_parts(bs, bl, data(cap)); });
+            got = fmt(r.is_err());
+            want = fmt(true);
         }
         "len" => {
             got = fmt((rb.len(), rb.is_empty(), rb.is_full(), rb.max_len()));
@@ -129,8 +140,15 @@ fn fixed_op(cap: usize, first: usize, op: &str, arg: i64) -> (String, String) {
             let g = rb.push(arg);
             let w = m.remove(0);
             m.push(arg);
-            got = fmt((g, rb.iter().cloned().collect::<Vec<_>>(), rb.len()));
-            want = fmt((w, m.clone(), cap));
+            let (f2, _) = rb.clone().into_raw_parts();
+            let wf = f2 < cap;
+            got = fmt((g, if wf { rb.iter().cloned().collect::<Vec<_>>() } else { vec![] }, rb.len(), wf));
+            want = fmt((w, m.clone(), cap, true));
+        }
+        "from_raw_parts" => {
+            let r = panic::catch_unwind(|| { let _ = Fixed::from_raw_parts(cap + arg as usize, data(cap)); });
+            got = fmt(r.is_err());
+            want = fmt(true);
         }
         "set_first" => {
             rb.set_first(idx);
@@ -232,11 +250,12 @@ fn main() {
     for cap in 1..=MAXCAP {
         for start in 0..cap {
             for len in 0..=cap {
-                for op in ["get", "get_mut", "index", "push", "pop", "slices", "slices_mut", "iter", "iter_mut", "drain", "len"] {
+                for op in ["get", "get_mut", "index", "push", "pop", "slices", "slices_mut", "iter", "iter_mut", "drain", "len", "from_raw_parts"] {
                     if !want_t(&format!("Bounded::{}", op)) { continue; }
                     let nargs: Vec<i64> = match op {
                         "get" | "get_mut" | "index" => (0..(cap as i64 + 2)).collect(),
                         "drain" => (0..=cap as i64).collect(),
+                        "from_raw_parts" => vec![0, 1, 2],
                         "push" => vec![55],
                         _ => vec![0],
                     };
@@ -248,11 +267,12 @@ fn main() {
                 }
             }
             let first = start;
-            for op in ["get", "get_mut", "index", "push", "set_first", "slices", "slices_mut", "iter", "iter_mut", "iter_loop"] {
+            for op in ["get", "get_mut", "index", "push", "set_first", "slices", "slices_mut", "iter", "iter_mut", "iter_loop", "from_raw_parts"] {
                 if !want_t(&format!("Fixed::{}", op)) { continue; }
                 let nargs: Vec<i64> = match op {
                     "get" | "get_mut" | "index" | "set_first" => (0..(2 * cap as i64 + 2)).chain(big.iter().cloned()).collect(),
                     "push" => vec![55],
+                    "from_raw_parts" => vec![0, 1],
                     _ => vec![0],
                 };
                 for arg in nargs {
